@@ -140,7 +140,37 @@ Definition eq_phase (m : result (list (option Q))) (i : result (list (option Z))
   | Err e, Err f => err_eqb e f
   | _, _ => false
   end.
+(* The theorems of Proofs/Phase.v assume wf_cps: along the sorted anchor list of the -pi series every step either
+   advances the phase or wraps into a trough (from a value >= 0), and there are at least two anchors.  The boolean
+   form lives here so that the runner can test it on every generated case (soundness: Proofs/Phase.v, wf_cpsb_sound);
+   a case of the quantified class on which it is false would lie outside every theorem, and is reported like a
+   disagreement. *)
+Fixpoint wf_ancb (anc : list (nat * Z)) : bool :=
+  match anc with
+  | (a0, v0) :: (((a1, v1) :: _) as t) =>
+      (a0 <? a1)%nat && ((-2 <=? v0)%Z && (v0 <=? 1)%Z) &&
+      ((v0 <? v1)%Z || ((v1 =? -2)%Z && (0 <=? v0)%Z)) && wf_ancb t
+  | [(a0, v0)] => (-2 <=? v0)%Z && (v0 <=? 1)%Z
+  | [] => true
+  end.
+Definition wf_cpsb (c : cps) : bool :=
+  wf_ancb (anchors (-2) c) && (2 <=? length (anchors (-2) c))%nat.
+
+Definition cps_of (x : nat * list nat * list nat * option (list nat) * option (list nat)) : cps :=
+  let '(n, p, t, r, d) := x in {| c_n := n; c_peaks := p; c_troughs := t; c_rises := r; c_decays := d |}.
+
+(* a case is reported when model and implementation differ OR the case is outside the theorems' precondition *)
 Definition bad_phase (cases : list (N * (nat * list nat * list nat * option (list nat) * option (list nat)) * result (list (option Z))))
   : N * list N :=
   (N.of_nat (length cases),
+   map (fun c => fst (fst c))
+       (filter (fun c => negb (eq_phase (run_phase (snd (fst c))) (snd c) && wf_cpsb (cps_of (snd (fst c))))) cases)).
+(* the two parts separately (used when a reported case is analysed) *)
+Definition bad_phase_values (cases : list (N * (nat * list nat * list nat * option (list nat) * option (list nat)) * result (list (option Z))))
+  : N * list N :=
+  (N.of_nat (length cases),
    map (fun c => fst (fst c)) (filter (fun c => negb (eq_phase (run_phase (snd (fst c))) (snd c))) cases)).
+Definition bad_phase_wf (cases : list (N * (nat * list nat * list nat * option (list nat) * option (list nat)) * result (list (option Z))))
+  : N * list N :=
+  (N.of_nat (length cases),
+   map (fun c => fst (fst c)) (filter (fun c => negb (wf_cpsb (cps_of (snd (fst c))))) cases)).
